@@ -5,6 +5,7 @@ CONSTANTS NK = 2
   KGen <- G2_22
   MaxN = 1
   OtherKinds <- OthersOne
+  RawModes <- RawNone
   D = 0
 INIT Init
 NEXT Next
